@@ -10,7 +10,9 @@
        is home, .Trash/$uid, .Trash-$uid, (home fallback); --trash-dir restricts the list to that directory.
    That the string walk of volume_of finds the mount point of a canonical path, and that a same-volume move
    is one rename(2), are file-system facts: decided by the check's oracle over generated mount layouts. *)
-From TV Require Import Prelude.Str Prelude.PosixPath Logic.OrigLoc Prog.Prog Cmd.Put Proofs.ProgProofs Proofs.PutMore.
+From TV Require Import Prelude.Str Prelude.PosixPath Logic.OrigLoc Prog.Prog Cmd.Put Proofs.ProgProofs Proofs.PutMore Proofs.Independence Proofs.SkeletonMade.
+From Coq Require Import List.
+Import ListNotations.
 Open Scope N_scope.
 
 Theorem home_trash_from_env : forall env,
@@ -26,6 +28,19 @@ Theorem dirs_private_and_no_prompt : forall o path,
   all_runs (fun t _ => Forall (fun p => put_op_ok o path (fst p)) t) (trash_single path o).
 Proof. exact trash_single_ops_lemma. Qed.
 Print Assumptions dirs_private_and_no_prompt.
+
+(* the three directories of a trash directory (SkeletonMade.v, on runs as a relation): whenever the creator reports success it has asked
+   for the trash directory, its files/ and its info/ - in this order, each with mode 0700, none skipped because another one is there;
+   whatever it reports, what it asked for is a non-empty prefix of these three *)
+Theorem skeleton_made : forall c t, run_of (make_candidate_dirs c) t (Done None) ->
+  makedirs_of t = [(c_path c, 448); (cand_files_dir c, 448); (cand_info_dir c, 448)].
+Proof. exact skeleton_made_lemma. Qed.
+Print Assumptions skeleton_made.
+
+Theorem skeleton_attempted : forall c t out, run_of (make_candidate_dirs c) t out ->
+  exists n, makedirs_of t = firstn n [(c_path c, 448); (cand_files_dir c, 448); (cand_info_dir c, 448)] /\ (0 < n)%nat.
+Proof. exact skeleton_attempted_lemma. Qed.
+Print Assumptions skeleton_attempted.
 
 Theorem fallback_gate_needs_env : forall vol c env, c_gate c = GateHomeFallback ->
   file_could_be_trashed_in vol c env =
